@@ -173,6 +173,19 @@ func pedProgram[K commitments.HomomorphicCommitmentKey[K, *pedersencom.Message[S
 				}
 				ops = append(ops, hop{kind: 'O', i: i, j: j})
 				regs = append(regs, pedReg[E, S]{m, w, c})
+				if rng.Chance(1, 4) { // the variadic form: Op(first, second, rest...)
+					l := rng.Intn(len(regs))
+					d := regs[l]
+					m3, e1 := key.MessageOp(a.m, b.m, d.m)
+					w3, e2 := key.WitnessOp(a.w, b.w, d.w)
+					c3, e3 := key.CommitmentOp(a.c, b.c, d.c)
+					if e1 != nil || e2 != nil || e3 != nil {
+						fail = fmt.Sprint("Op(3): ", e1, e2, e3)
+						return
+					}
+					ops = append(ops, hop{kind: 'O', i: len(regs) - 1, j: l})
+					regs = append(regs, pedReg[E, S]{m3, w3, c3})
+				}
 			case 'V':
 				a := regs[i]
 				m, e1 := key.MessageOpInv(a.m)
@@ -404,6 +417,9 @@ func pedersenCase[E algebra.PrimeGroupElement[E, S], S algebra.PrimeFieldElement
 			{"key-2g", pedKeySpec{add(std.g0, std.g0), add(std.g1, std.g1), std.h0, std.h1}, z, z, one, m, w, m.Sign() != 0},
 			{"key-swapped", pedKeySpec{std.h0, std.h1, std.g0, std.g1}, z, z, one, m, w, m.Cmp(w) != 0},
 			{"key-g-for-both", pedKeySpec{std.g0, std.g1, add(std.g0, std.g0), add(std.g1, std.g1)}, z, z, one, m, w, true},
+			// keys NewCommitmentKeyUnchecked must refuse
+			{"key-h-equals-g", pedKeySpec{std.g0, std.g1, std.g0, std.g1}, z, z, one, m, w, false},
+			{"key-h-identity", pedKeySpec{std.g0, std.g1, z, z}, z, z, one, m, w, false},
 		}
 		type pendT struct {
 			v               tv
@@ -558,12 +574,32 @@ func pedersenEquivocate[E algebra.PrimeGroupElement[E, S], S algebra.PrimeFieldE
 	})
 }
 
+// pedersenBadTrapdoor: λ ∈ {0, 1} (h = identity / h = g) must be refused, as in the model.
+func pedersenBadTrapdoor[E algebra.PrimeGroupElement[E, S], S algebra.PrimeFieldElement[S]](r *runner, cx *grp[E, S]) {
+	for _, l := range []*big.Int{bi(0), bi(1), cx.q, new(big.Int).Add(cx.q, bi(1))} {
+		l := l
+		id := fmt.Sprintf("PT-%s-%s", cx.name, zh(l))
+		cse := fmt.Sprintf("pedtrap-%s 0 | lambda=%s", cx.name, zh(l))
+		_, err := pedersencom.NewTrapdoorKey(cx.g.Generator(), cx.sc(l))
+		r.res.Count("pedersen-"+cx.name+"-bad-trapdoor", cse, true)
+		r.ask(fmt.Sprintf("PE %s %s 1,0 %s 0 0 0", id, zh(cx.q), zh(l)), func(out string) {
+			if (out == "KEYERR") != (err != nil) {
+				r.corr(id, "pedersen-trapdoor-validation", fmt.Sprintf("NewTrapdoorKey(g, λ) refused=%v, model %s", err != nil, out), cse, "correspondence NewTrapdoorKey validation [model/Commit.v ped_new_tkey]", false)
+			}
+		})
+	}
+}
+
 func pedersenAll(r *runner, c counts) {
 	_ = bls12381.NewScalarField() // G1.Order() needs the scalar field initialised
 	k := newGrp("k256", k256.NewCurve())
 	b := newGrp("bls12381g1", bls12381.NewG1())
 	p := newGrp("p256", p256.NewCurve())
 	e := newGrp("edwards25519", edwards25519.NewPrimeSubGroup())
+	pedersenBadTrapdoor(r, k)
+	pedersenBadTrapdoor(r, b)
+	pedersenBadTrapdoor(r, p)
+	pedersenBadTrapdoor(r, e)
 	for i := 0; i < c.ped; i++ {
 		pedersenCase(r, c, k, i)
 		pedersenCase(r, c, b, i)
